@@ -268,7 +268,7 @@ def classify(case, o):
 # ---- C: other uses of a snapshot that holds user-controlled parts: never compared, membership, sub-snapshots in loops
 def gen_usage(rng, i):
     kind = ["never", "in", "getitem_loop", "never", "in_nested", "bound_nested", "bound_fstring", "getitem_star", "star_nested",
-            "in_star", "star_loop", "equal_other_spelling", "call_hidden_kw", "inner_field", "fstring_nofield", "never_factory", "cond_inner"][i % 17]
+            "in_star", "star_loop", "equal_other_spelling", "call_hidden_kw", "inner_field", "fstring_nofield", "never_factory", "cond_inner", "in_nonlist_unm", "leaf_fkey"][i % 19]
     g = G(rng, agree=True)
     flags = tuple(rng.choice(proggen.flag_subsets()))
     if kind == "never":
@@ -408,6 +408,20 @@ def gen_usage(rng, i):
         g.snips += [] if empty else ["snapshot('int')", "snapshot('str')"]
         allowed = set()
         cond_inner = {"empty": empty}
+    elif kind == "in_nonlist_unm":
+        # `in` snapshots whose previous value is no list display (tuple, dict) and holds user-controlled members: it can only be replaced as a whole, so it is left alone
+        old = rng.choice(["(Is(X), 2)", "(1, Is(X))", "(f'{S}', 2)", "(2, f'{S}')", "((Is(X), 0), 2)", "{Is(X): 0, 2: 0}"])
+        tested = rng.choice(["5", "2", "X", "5, 2"])
+        body = f"X = 1\nS = 'a'\n\n\ndef test_a():\n    for v in ({tested},):\n        R = v in snapshot({old})\n"
+        g.snips.append("Is(X)" if "Is(X)" in old else "f'{S}'")
+        allowed = set()
+    elif kind == "leaf_fkey":
+        # an f-string as KEY of a dict that is handled as a whole (member of an `in` / <= list): the key is the user's, the leaf is not rewritten
+        form = rng.choice(["[{{{k}: 1}}] <= snapshot([{{{k}: 1+0}}])", "{{{k}: 1}} in snapshot([{{{k}: 1+0}}, 0+1])", "[{{{k}: 1}}] >= snapshot([{{{k}: 1+0}}])",
+                           "{{{k}: 1}} == snapshot({{{k}: 1+0}})", "[{{'a': {{{k}: 1}}}}] <= snapshot([{{'a': {{{k}: 0+1}}}}])"])
+        body = "S = 'a'\n\n\ndef test_a():\n    R = " + form.format(k="f'k{S}'") + "\n"
+        g.snips.append("f'k{S}'")
+        allowed = set()
     elif kind == "never_factory":
         # a never-compared snapshot whose argument calls a function that is NOT the constructor of the value it returns: its arguments are no fields,
         # nothing in the call is inline-snapshot's to rewrite (the call as a whole is the user's)
